@@ -62,6 +62,8 @@ def draw_op(draw, T, vals, families=None):
                         "rpad_and_clip", "combinations", "simplify", "deep_copy", "tojson", "carry",
                         "numbers_to_type", "type", "form", "validity", "fillna", "purelist"]
     f = draw(st.sampled_from(fams))
+    if f == "mergeself":
+        return {"op": f, "copies": draw(st.integers(1, 2)), "via": draw(st.sampled_from(["mergemany", "merge"]))}
     if f == "getitem_at":
         return {"op": f, "i": draw(st.integers(-n - 1, n))}
     if f == "getitem_range":
@@ -134,6 +136,14 @@ def apply_op(layout, spec):
         return layout.simplify()
     if op == "deep_copy":
         return layout.deep_copy()
+    if op == "mergeself":
+        # the array concatenated with itself: the second copy's indexes/offsets must be shifted by the right base
+        if spec["via"] == "merge":
+            out = layout
+            for _ in range(spec["copies"]):
+                out = out.merge(layout)
+            return out
+        return layout.mergemany([layout] * spec["copies"])
     if op == "tojson":
         return layout.tojson()
     if op == "carry":
